@@ -13,7 +13,7 @@
      D8  bipartite kthlist, left vertex twice-> edges dropped   C14_kthb_sound_refuted
      D9  dot labels sorted as strings        -> renumbering     C14_dot_labels_refuted *)
 From Coq Require Import ZArith List Bool Ascii.
-From Cnfgen Require Import GText GraphIO GTextFacts GraphIOFacts GraphIOMatrix GraphIODimacs GraphIOKth GraphIOSound GraphIOLabels.
+From Cnfgen Require Import GText GraphIO GTextFacts GraphIOFacts GraphIOMatrix GraphIODimacs GraphIOKth GraphIOSound GraphIOLabels GraphIOBipNx.
 Import ListNotations.
 Open Scope Z_scope.
 
@@ -175,6 +175,14 @@ Print Assumptions C14_dot_labels_refuted.
 Theorem C14_dot_12_vertices : gio_dot_roundtrip (mkIOG KSimple [] 12 0 [(2, 10)]) = Some (GOk (mkIOG KSimple [] 12 0 [(2, 5)])).
 Proof. exact dot_g12. Qed.
 Print Assumptions C14_dot_12_vertices.
+
+(* bipartite graphs: from_networkx uses the 'bipartite' attribute and the node order, nothing is sorted:
+   what to_networkx + a faithful gml/dot writer and reader deliver (nodes "1".."L" with colour 0, then
+   "L+1".."L+R" with colour 1) is rebuilt to the same graph at every size *)
+Theorem C14_bipartite_from_networkx : forall G, gio_wf G -> io_kind G = KBipartite ->
+  gio_bip_from_nx gt_str_eqb (io_name G) (nx_bip_nodes (io_n G) (io_r G)) (nx_bip_edges (io_n G) (io_edges G)) = GOk G.
+Proof. exact bip_nx_roundtrip. Qed.
+Print Assumptions C14_bipartite_from_networkx.
 
 (* ---------- non-vacuity ---------- *)
 (* a 12-vertex dag with isolated vertices and an edge 2 -> 10 meets the hypotheses of C14_roundtrip;
